@@ -86,9 +86,36 @@ pub const UNARIES: [Un; 21] = [
     Un::Glyph,
 ];
 
+/// kind 0 linear / 1 radial / 2 sweep; indices into the geometry, stop-list and extend alphabets
+#[derive(Clone, Copy, Debug, PartialEq, Eq, Hash)]
+pub struct GradSpec {
+    pub kind: u8,
+    pub geom: u8,
+    pub stops: u8,
+    pub extend: u8,
+}
+
+pub const GRAD_POINTS: [(i16, i16); 4] = [(0, 0), (100, 0), (0, 100), (100, 100)];
+pub const GRAD_RADII: [u16; 3] = [0, 10, 100];
+/// F2Dot14 angles: -1 = 0 deg, 0 = 180 deg, 1 = 360 deg
+pub const GRAD_ANGLES: [f32; 6] = [-1.0, -0.5, 0.0, 0.5, 1.0, 1.99];
+/// stop offsets: empty, single, ordered, unordered, duplicate, interior duplicates, outside [0,1], all equal
+pub fn grad_stop_lists() -> Vec<Vec<f32>> {
+    vec![vec![], vec![0.5], vec![0.0, 1.0], vec![1.0, 0.0], vec![0.5, 0.5], vec![0.0, 0.5, 0.5, 1.0], vec![-1.0, 1.99], vec![0.3, 0.3, 0.3], vec![1.0, 0.25, 0.75, 0.0]]
+}
+pub fn grad_geom_count(kind: u8) -> u8 {
+    match kind {
+        0 => 64,     // p0, p1, p2 over the four points
+        1 => 36,     // c0, c1 over two points x radii^2
+        _ => 36,     // start, end angle
+    }
+}
+
 #[derive(Clone, Debug, PartialEq, Eq, Hash)]
 pub enum Node {
     Fill(Fill),
+    /// gradient with explicit (possibly degenerate) geometry / colour line, see `grad_paint`
+    Grad(GradSpec),
     /// PaintColrGlyph(glyph id)
     ColrGlyph(u16),
     /// PaintColrLayers(first, count)
@@ -109,6 +136,7 @@ impl Node {
     pub fn to_json(&self) -> Value {
         match self {
             Node::Fill(f) => json!(["fill", format!("{f:?}")]),
+            Node::Grad(s) => json!(["grad", s.kind, s.geom, s.stops, s.extend]),
             Node::ColrGlyph(g) => json!(["colr_glyph", g]),
             Node::ColrLayers(f, c) => json!(["colr_layers", f, c]),
             Node::Unary(u, c) => json!(["unary", format!("{u:?}"), c.to_json()]),
@@ -119,6 +147,7 @@ impl Node {
         let tag = v[0].as_str()?;
         Some(match tag {
             "fill" => Node::Fill(*FILLS.iter().find(|f| format!("{f:?}") == v[1].as_str().unwrap_or(""))?),
+            "grad" => Node::Grad(GradSpec { kind: v[1].as_u64()? as u8, geom: v[2].as_u64()? as u8, stops: v[3].as_u64()? as u8, extend: v[4].as_u64()? as u8 }),
             "colr_glyph" => Node::ColrGlyph(v[1].as_u64()? as u16),
             "colr_layers" => Node::ColrLayers(v[1].as_u64()? as u32, v[2].as_u64()? as u8),
             "unary" => Node::Unary(
@@ -143,6 +172,8 @@ pub struct Graph {
     pub clip: bool,
     /// include an ItemVariationStore (one axis, one region, a few delta sets)
     pub var_store: bool,
+    /// additionally a COLR v0 BaseGlyph record for glyph 1: (first layer, layer count, layer records)
+    pub v0: Option<(u16, u16, u16)>,
 }
 
 impl Graph {
@@ -152,6 +183,7 @@ impl Graph {
             "layers": self.layers.iter().map(|n| n.to_json()).collect::<Vec<_>>(),
             "clip": self.clip,
             "var_store": self.var_store,
+            "v0": self.v0.map(|(a, b, c)| vec![a, b, c]),
         })
     }
     pub fn from_json(v: &Value) -> Option<Graph> {
@@ -160,6 +192,7 @@ impl Graph {
             layers: v["layers"].as_array()?.iter().map(Node::from_json).collect::<Option<Vec<_>>>()?,
             clip: v["clip"].as_bool().unwrap_or(false),
             var_store: v["var_store"].as_bool().unwrap_or(false),
+            v0: v["v0"].as_array().map(|a| (a[0].as_u64().unwrap_or(0) as u16, a[1].as_u64().unwrap_or(0) as u16, a[2].as_u64().unwrap_or(0) as u16)),
         })
     }
     pub fn nodes(&self) -> usize {
@@ -233,9 +266,40 @@ fn unary_paint(u: Un, c: Paint) -> Paint {
     }
 }
 
+fn grad_paint(s: &GradSpec) -> Paint {
+    let lists = grad_stop_lists();
+    let offs = &lists[s.stops as usize % lists.len()];
+    let extend = [Extend::Pad, Extend::Repeat, Extend::Reflect][s.extend as usize % 3];
+    let line = ColorLine::new(extend, offs.len() as u16, offs.iter().enumerate().map(|(i, o)| ColorStop::new(f2(*o), i as u16, f2(1.0))).collect());
+    let g = s.geom as usize;
+    match s.kind {
+        0 => {
+            let (p0, p1, p2) = (GRAD_POINTS[g % 4], GRAD_POINTS[(g / 4) % 4], GRAD_POINTS[(g / 16) % 4]);
+            Paint::linear_gradient(line, fw(p0.0), fw(p0.1), fw(p1.0), fw(p1.1), fw(p2.0), fw(p2.1))
+        }
+        1 => {
+            let (c0, c1) = (GRAD_POINTS[(g % 2) * 3], GRAD_POINTS[((g / 2) % 2) * 3]);
+            let (r0, r1) = (GRAD_RADII[(g / 4) % 3], GRAD_RADII[(g / 12) % 3]);
+            Paint::radial_gradient(line, fw(c0.0), fw(c0.1), font_types::UfWord::new(r0), fw(c1.0), fw(c1.1), font_types::UfWord::new(r1))
+        }
+        _ => Paint::sweep_gradient(line, fw(10), fw(10), f2(GRAD_ANGLES[g % 6]), f2(GRAD_ANGLES[(g / 6) % 6])),
+    }
+}
+
+/// true if the tree contains a variable paint format
+pub fn uses_var(n: &Node) -> bool {
+    match n {
+        Node::Fill(f) => format!("{f:?}").starts_with("Var"),
+        Node::Unary(u, c) => format!("{u:?}").starts_with("Var") || uses_var(c),
+        Node::Composite(a, b) => uses_var(a) || uses_var(b),
+        _ => false,
+    }
+}
+
 pub fn to_paint(n: &Node) -> Paint {
     match n {
         Node::Fill(f) => fill_paint(*f),
+        Node::Grad(s) => grad_paint(s),
         Node::ColrGlyph(g) => Paint::colr_glyph(GlyphId16::new(*g)),
         Node::ColrLayers(first, count) => Paint::colr_layers(*count, *first),
         Node::Unary(u, c) => unary_paint(*u, to_paint(c)),
@@ -244,7 +308,15 @@ pub fn to_paint(n: &Node) -> Paint {
 }
 
 pub fn build_colr(g: &Graph) -> Colr {
-    let mut colr = Colr::new(0, None, None, 0);
+    let mut colr = match g.v0 {
+        Some((first, num, nrec)) => Colr::new(
+            1,
+            Some(vec![BaseGlyph::new(GlyphId16::new(1), first, num)]),
+            Some((0..nrec).map(|i| Layer::new(GlyphId16::new(PLAIN_GID + i), i)).collect()),
+            nrec,
+        ),
+        None => Colr::new(0, None, None, 0),
+    };
     let recs: Vec<BaseGlyphPaint> = g
         .bases
         .iter()
@@ -331,7 +403,7 @@ fn walk(g: &Graph, n: &Node, path: &mut Vec<Slot>, depth: usize, cache_ok: bool,
         return;
     }
     match n {
-        Node::Fill(_) => {}
+        Node::Fill(_) | Node::Grad(_) => {}
         Node::ColrGlyph(gid) => {
             if cache_ok {
                 return;
